@@ -990,7 +990,18 @@ class Engine:
                     out.append(self.ev(x))
             return tuple(out)
         if isinstance(e, ast.List):
-            return SymList([self.ev(x) for x in e.elts])
+            out = []
+            for x in e.elts:
+                if isinstance(x, ast.Starred):
+                    sv_ = self.ev(x.value)
+                    if isinstance(sv_, SymList):
+                        sv_ = sv_.items
+                    if not isinstance(sv_, (tuple, list)):
+                        raise Refuse('starred non-sequence')
+                    out.extend(sv_)
+                else:
+                    out.append(self.ev(x))
+            return SymList(out)
         if isinstance(e, ast.Subscript):
             base = self.ev(e.value)
             idx = self.ev_index(e.slice)
@@ -1535,6 +1546,8 @@ class Engine:
             return args[0]
         if name in ('list', 'bytearray') and len(args) == 1 and isinstance(args[0], (SymList, tuple)):
             return SymList(args[0].items if isinstance(args[0], SymList) else args[0])
+        if name == 'list' and len(args) == 1 and isinstance(args[0], list):
+            return SymList(list(args[0]))
         if name == 'range' and self.unknown_ok:
             return UNK
         if self.unknown_ok:
